@@ -154,6 +154,9 @@ func main() {
 				if sm := runSystematic(c, id, *repo, *root, seed, 36); sm != nil {
 					extra["systematic_mutation_sample"] = sm
 				}
+				if bn := runBenign(id, *repo, *root); bn != nil {
+					extra["behaviour_preserving_changes"] = bn
+				}
 			}
 		}
 		if *list {
